@@ -132,10 +132,69 @@ func (p *prover) structKey(v ssa.Value) string {
 				if !p.fieldStored(sn, f) {
 					return fmt.Sprintf("load(%s.%s of %s)", sn, f, p.atomOf(fa.X))
 				}
+				if al, ok := fa.X.(*ssa.Alloc); ok && p.settled(al, x) {
+					return fmt.Sprintf("settled-load(%s.%s of %s)", sn, f, p.atomOf(al))
+				}
 			}
 		}
 	}
 	return ""
+}
+
+// settled: the object allocated by al (once per activation: not in a loop) is referred to only through
+// field addresses and as an argument of calls, and none of the instructions that may write it (stores
+// through its field addresses, calls that receive it or one of its field addresses) can execute after
+// the load ld. Every such load of one field then sees the same, final value.
+func (p *prover) settled(al *ssa.Alloc, ld ssa.Instruction) bool {
+	if al.Block() == nil || inLoop(al.Block()) || al.Referrers() == nil {
+		return false
+	}
+	var writers []ssa.Instruction
+	for _, r := range *al.Referrers() {
+		switch y := r.(type) {
+		case *ssa.FieldAddr:
+			if y.Referrers() == nil {
+				return false
+			}
+			for _, r2 := range *y.Referrers() {
+				switch z := r2.(type) {
+				case *ssa.UnOp:
+					if z.Op != token.MUL {
+						return false
+					}
+				case *ssa.Store:
+					if z.Addr != ssa.Value(y) {
+						return false // the address itself is stored somewhere
+					}
+					writers = append(writers, z)
+				case ssa.CallInstruction:
+					writers = append(writers, z)
+				case *ssa.IndexAddr, *ssa.Slice:
+					// array field: element reads; writes through it are not tracked -> not settled
+					return false
+				case *ssa.DebugRef:
+				default:
+					return false
+				}
+			}
+		case *ssa.Call:
+			writers = append(writers, y)
+		case *ssa.Store:
+			if y.Addr != ssa.Value(al) {
+				return false // the pointer escapes into memory
+			}
+			writers = append(writers, y)
+		case *ssa.DebugRef:
+		default:
+			return false // go/defer, phi, closure capture, conversion ...: may be written later
+		}
+	}
+	for _, w := range writers {
+		if w == ld || canReach(ld, w) {
+			return false
+		}
+	}
+	return true
 }
 
 // uniqueStore returns the only store in the function to the field addressed by fa, if it goes through
@@ -632,6 +691,12 @@ func (p *prover) lin0(v ssa.Value) lin {
 		a := p.atomOf(x)
 		src := p.lin(x.X)
 		nonNeg := isUnsignedOrNonNeg(x.X.Type()) || strings.HasPrefix(string(src.pos), "len(") || (src.pos == "" && src.c >= 0)
+		if !nonNeg && src.ok && src.neg == "" && src.pos != "" {
+			// a lower bound known from function-wide facts (loop-index induction, contracts)
+			if lo, ok := p.shortest(p.global, "", src.pos); ok && src.c-lo >= 0 {
+				nonNeg = true
+			}
+		}
 		if src.ok && src.neg == "" && nonNeg {
 			// a narrowing conversion of a non-negative value never yields more than the value
 			p.add(dfact{a, src.pos, src.c, "convert: result <= non-negative source"})
@@ -779,7 +844,7 @@ func (p *prover) mayWrap(x *ssa.BinOp) bool {
 	if x.Op == token.SUB {
 		// no wrap below zero: y <= x at the operation's own block (its dominating facts hold at every use)
 		d := addLin(ly, negLin(lx))
-		lower := d.ok && p.entails0(x.Block(), d, 0, nil)
+		lower := d.ok && p.entails(x.Block(), d, 0)
 		if !unsigned {
 			return true
 		}
@@ -787,7 +852,7 @@ func (p *prover) mayWrap(x *ssa.BinOp) bool {
 	}
 	// ADD: x + y <= max
 	d := addLin(lx, ly)
-	return !(d.ok && p.entails0(x.Block(), d, max, nil))
+	return !(d.ok && p.entails(x.Block(), d, max))
 }
 
 func (p *prover) minArgs(a atom, args []ssa.Value) {
